@@ -58,6 +58,41 @@ type c01Hist struct {
 	looped map[string]map[string]bool
 	events map[string]int
 	flips  int
+
+	// reference model of what the sources have announced (used by the C02 daemon-level layer):
+	// adjIn[peer addr][(family, prefix, remote path id)] = latest un-withdrawn route on the current session
+	adjIn map[string]map[simRouteKey]simRoute
+	local map[string]simRoute // API-injected routes by prefix
+	noRS  bool                // generate no route-server clients (their routes live in a separate table)
+}
+
+func (h *c01Hist) modelAnnounce(p *c01Peer, rs simRouteSpec, m *bgp.BGPMessage) {
+	if h.adjIn == nil {
+		return
+	}
+	u := m.Body.(*bgp.BGPUpdate)
+	a, nh := simCanonAttrs(u.PathAttributes)
+	fam := bgp.RF_IPv4_UC
+	if mustPrefix(rs.Prefix).Addr().Is6() {
+		fam = bgp.RF_IPv6_UC
+	}
+	if h.adjIn[p.spec.Addr] == nil {
+		h.adjIn[p.spec.Addr] = map[simRouteKey]simRoute{}
+	}
+	nl, _ := bgp.NewIPAddrPrefix(mustPrefix(rs.Prefix))
+	h.adjIn[p.spec.Addr][simRouteKey{fam, nl.String(), rs.ID}] = simRoute{a, nh}
+}
+
+func (h *c01Hist) modelWithdraw(p *c01Peer, prefix string, id uint32) {
+	if h.adjIn == nil {
+		return
+	}
+	fam := bgp.RF_IPv4_UC
+	if mustPrefix(prefix).Addr().Is6() {
+		fam = bgp.RF_IPv6_UC
+	}
+	nl, _ := bgp.NewIPAddrPrefix(mustPrefix(prefix))
+	delete(h.adjIn[p.spec.Addr], simRouteKey{fam, nl.String(), id})
 }
 
 func (h *c01Hist) logf(f string, a ...any) {
@@ -168,11 +203,13 @@ func (h *c01Hist) step() {
 	case k < 45 && len(ups) > 0: // announce / implicit replace
 		p := ups[r.IntN(len(ups))]
 		rs := h.routeSpec(p, h.pickPrefix(p))
-		if p.sp.sendMsg(p.sp.buildAnnounce(p.spec.Kind, rs)) == nil {
+		am := p.sp.buildAnnounce(p.spec.Kind, rs)
+		if p.sp.sendMsg(am) == nil {
 			if p.ann[rs.Prefix] == nil {
 				p.ann[rs.Prefix] = map[uint32]bool{}
 			}
 			p.ann[rs.Prefix][rs.ID] = true
+			h.modelAnnounce(p, rs, am)
 		}
 		h.noteLoops(p, rs)
 		h.events["announce"]++
@@ -184,7 +221,9 @@ func (h *c01Hist) step() {
 		if p.spec.APRecv {
 			id = uint32(1 + r.IntN(2))
 		}
-		p.sp.sendMsg(p.sp.buildWithdraw(pfx, id))
+		if p.sp.sendMsg(p.sp.buildWithdraw(pfx, id)) == nil {
+			h.modelWithdraw(p, pfx, id)
+		}
 		if p.ann[pfx] != nil {
 			delete(p.ann[pfx], id)
 		}
@@ -195,6 +234,9 @@ func (h *c01Hist) step() {
 		p.sp.close()
 		p.up = false
 		p.ann = map[string]map[uint32]bool{}
+		if h.adjIn != nil {
+			delete(h.adjIn, p.spec.Addr)
+		}
 		h.events["flap"]++
 		h.logf("close %s", p.spec.Addr)
 	case k < 80: // re-establish a down peer
@@ -222,6 +264,10 @@ func (h *c01Hist) step() {
 		res, err := h.n.s.AddPath(apiutil.AddPathRequest{Paths: []*apiutil.Path{{Family: bgp.RF_IPv4_UC, Nlri: nl, Attrs: attrs}}})
 		if err == nil && len(res) == 1 && res[0].Error == nil {
 			h.apiUU[pfx] = res[0].UUID[:]
+			if h.local != nil {
+				a, nhs := simCanonAttrs(attrs)
+				h.local[nl.String()] = simRoute{a, nhs}
+			}
 		}
 		h.events["api-add"]++
 		h.logf("api-add %s", pfx)
@@ -229,7 +275,10 @@ func (h *c01Hist) step() {
 		for pfx, uu := range h.apiUU {
 			var u uuid.UUID
 			copy(u[:], uu)
-			h.n.s.DeletePath(apiutil.DeletePathRequest{UUIDs: []uuid.UUID{u}})
+			if h.n.s.DeletePath(apiutil.DeletePathRequest{UUIDs: []uuid.UUID{u}}) == nil && h.local != nil {
+				nl, _ := bgp.NewIPAddrPrefix(mustPrefix(pfx))
+				delete(h.local, nl.String())
+			}
 			delete(h.apiUU, pfx)
 			h.events["api-del"]++
 			h.logf("api-del %s", pfx)
@@ -275,6 +324,7 @@ func (h *c01Hist) burst(ups []*c01Peer) {
 			}
 			if r.IntN(3) == 0 {
 				msgs = append(msgs, p.sp.buildWithdraw(pfx, id))
+				h.modelWithdraw(p, pfx, id)
 				if p.ann[pfx] != nil {
 					delete(p.ann[pfx], id)
 				}
@@ -283,7 +333,9 @@ func (h *c01Hist) burst(ups []*c01Peer) {
 				rs := h.routeSpec(p, pfx)
 				rs.ID = id
 				h.noteLoops(p, rs)
-				msgs = append(msgs, p.sp.buildAnnounce(p.spec.Kind, rs))
+				bm := p.sp.buildAnnounce(p.spec.Kind, rs)
+				h.modelAnnounce(p, rs, bm)
+				msgs = append(msgs, bm)
 				if p.ann[pfx] == nil {
 					p.ann[pfx] = map[uint32]bool{}
 				}
